@@ -43,3 +43,9 @@ package repository
 //@   props C17
 //@   nopanic
 //@   requires h != nil
+
+// cursorStores counts StoreTimestamp calls (the bridge import cursor is stored with it; property C16).
+//@ ghost var cursorStores int
+//@ func ConfigWrite.StoreTimestamp
+//@   modifies cursorStores
+//@   ensures cursorStores == old(cursorStores) + 1
